@@ -6,12 +6,13 @@ pub mod c03;
 pub mod c16;
 pub mod c17;
 pub mod c18;
+pub mod c19;
 pub mod fd;
 pub mod c20;
 pub mod common;
 
 pub fn all() -> Vec<Box<dyn Check>> {
-    vec![Box::new(c01::C01), Box::new(c02::C02), Box::new(c03::C03), Box::new(c16::C16), Box::new(c17::C17), Box::new(c18::C18), Box::new(c20::C20)]
+    vec![Box::new(c01::C01), Box::new(c02::C02), Box::new(c03::C03), Box::new(c16::C16), Box::new(c17::C17), Box::new(c18::C18), Box::new(c19::C19), Box::new(c20::C20)]
 }
 
 pub fn by_id(id: &str) -> Option<Box<dyn Check>> {
